@@ -43,20 +43,32 @@ def run_harness(exe, hlines, jobs=None):
     chunks = [hlines[i:i + per] for i in range(0, len(hlines), per)]
 
     def one(ch):
-        rc, out = core.sh([exe], input="\n".join(pool + ch) + "\n", timeout=900)
-        return rc, out
+        """a crash loses the rest of the process: the history that killed it is recorded and the
+        remaining ones are run in a new process"""
+        got, crashes, todo = {}, [], list(ch)
+        while todo:
+            rc, out = core.sh([exe], input="\n".join(pool + todo) + "\n", timeout=900)
+            for line in out.split("\n"):
+                if line.startswith("H "):
+                    f = line.split(" ", 2)
+                    try:
+                        got[f[1]] = [parse_res(x) for x in (f[2].split(";") if len(f) > 2 and f[2] else [])]
+                    except (ValueError, IndexError):
+                        pass
+            missing = [l for l in todo if l.split(" ", 2)[1] not in got]
+            if rc == 0 or not missing:
+                break
+            crashes.append((rc, missing[0]))
+            todo = missing[1:]
+        return got, crashes
     with ThreadPoolExecutor(jobs) as ex:
         rs = list(ex.map(one, chunks))
     res, err = {}, ""
-    for (rc, out), ch in zip(rs, chunks):
-        for line in out.split("\n"):
-            if line.startswith("H "):
-                f = line.split(" ", 2)
-                res[f[1]] = [parse_res(x) for x in (f[2].split(";") if len(f) > 2 and f[2] else [])]
-        if rc != 0:
-            missing = [l for l in ch if l.split(" ", 2)[1] not in res]
+    for got, crashes in rs:
+        res.update(got)
+        for rc, line in crashes:
             err += "the driver process died (exit status %d) while running this history on the library:\n%s\n" % (
-                rc, re.sub(r"^H \S+ ", "H reused ", missing[0]) if missing else ch[0][:200])
+                rc, re.sub(r"^H \S+ ", "H reused ", line))
     return res, err
 
 
@@ -301,15 +313,17 @@ def evaluate(ctx, histories, impl, model, have_hook, facts, known_cls):
     hlines = ["H h%d %s" % (k, ";".join(ops)) for k, ops in enumerate(histories)]
     res, err = run_harness(impl, hlines)
     viol, corr, known_hits = [], [], {}
-    if err:
-        viol.append({"what": err.strip().split("\n")[0], "replay": err.strip().split("\n")[1] if "\n" in err.strip() else hlines[0]})
+    el = err.strip().split("\n") if err.strip() else []
+    for i in range(0, len(el) - 1, 2):
+        viol.append({"what": el[i], "replay": el[i + 1]})
     # pass 1: oracle bookkeeping, collect the fresh histories needed
     fresh_needed = {}
     per_hist = []
     for k, ops in enumerate(histories):
         rr = res.get("h%d" % k)
         if rr is None or len(rr) != len(ops):
-            viol.append({"what": "no (complete) result for the history (crash?)", "replay": hlines[k]})
+            if ";".join(ops) not in err:
+                viol.append({"what": "no (complete) result for the history (crash?)", "replay": hlines[k]})
             per_hist.append(None)
             continue
         tr = Track()
@@ -332,8 +346,9 @@ def evaluate(ctx, histories, impl, model, have_hook, facts, known_cls):
     keys = sorted(fresh_needed)
     flines = ["H f%d %s" % (i, k) for i, k in enumerate(keys)]
     fres, ferr = run_harness(impl, flines)
-    if ferr:
-        viol.append({"what": "fresh re-runs: " + ferr.strip().split("\n")[0], "replay": ferr.strip().split("\n")[1] if "\n" in ferr.strip() else flines[0]})
+    fl = ferr.strip().split("\n") if ferr.strip() else []
+    for i in range(0, len(fl) - 1, 2):
+        viol.append({"what": "on a NEW transformer: " + fl[i], "replay": fl[i + 1]})
     for i, k in enumerate(keys):
         rr = fres.get("f%d" % i)
         fresh_needed[k] = rr[-1] if rr and len(rr) == len(k.split(";")) else None
@@ -618,9 +633,9 @@ def run(ctx):
     if viol:
         viol.sort(key=lambda v: len(v["replay"]))
         seen_w = set()
-        for v in viol[:8]:
-            key = v["what"][:60]
-            if key in seen_w:
+        for v in viol:
+            key = re.sub(r"\d+", "N", v["what"])[:48]      # one replay per kind of failure, shortest first
+            if key in seen_w or len(seen_w) >= 8:
                 continue
             seen_w.add(key)
             txt = "# C06 oracle failure: %s\n# replay: python3 check.py C06 --replay <this file>   (pool + histories for .build/api_plain)\n" % v["what"]
